@@ -760,6 +760,25 @@ func (x *Exec) trim(op *Op) {
 	var err error
 	st, _ := x.l.Stat()
 	arg := op.Arg
+	if op.Kind == "size" && op.Arg2 > 0 {
+		// boundary bound: Stat().Size minus the estimated size of the first Arg2-1 live messages, plus Arg
+		arg = st.Size + op.Arg
+		left := op.Arg2 - 1
+		for off := klevdb.OffsetOldest; left > 0; {
+			nx, ms, cerr := x.l.Consume(off, 32)
+			if cerr != nil || (len(ms) == 0 && nx == off) {
+				break
+			}
+			off = nx
+			for _, m := range ms {
+				if left == 0 {
+					break
+				}
+				arg -= x.l.Size(m)
+				left--
+			}
+		}
+	}
 	switch op.Kind {
 	case "offset":
 		R, err = klevdb.FindByOffset(ctx, x.l, arg)
